@@ -965,6 +965,91 @@ func runFSCleanup(c *core.Ctx) {
 			stopOK := true
 			failSilent := false
 			tested := false
+			// the cleanup may be written out in the collector itself instead of being a function of its own (loop, break
+			// on failure, `if errDir == nil { … exists = false }`): the store that clears the flag is then in fn, and
+			// takes the part the nil return plays otherwise
+			var inlineFlag *ssa.Store
+			an.Instrs(fn, func(in ssa.Instruction) {
+				st, ok := in.(*ssa.Store)
+				if !ok || h == nil {
+					return
+				}
+				k, isC := st.Val.(*ssa.Const)
+				if !isC || k.Value == nil || k.Value.Kind() != constant.Bool || constant.BoolVal(k.Value) {
+					return
+				}
+				if fa, ok := st.Addr.(*ssa.FieldAddr); ok && an.NamedOf(fa.X.Type()) == fam.Repo && an.BlockReaches(h, st.Block()) && !inLoop(st.Block()) {
+					inlineFlag = st
+				}
+			})
+			// reachWith: is target reached from block b (entered from pred), when the error variables merged in φs take
+			// the nilness their incoming edges give them (failVal is known to be non-nil)?
+			var reachWith func(b, pred *ssa.BasicBlock, env map[ssa.Value]int8, failVal ssa.Value, target ssa.Instruction, seen map[[2]*ssa.BasicBlock]bool) bool
+			reachWith = func(b, pred *ssa.BasicBlock, env map[ssa.Value]int8, failVal ssa.Value, target ssa.Instruction, seen map[[2]*ssa.BasicBlock]bool) bool {
+				if b == h || seen[[2]*ssa.BasicBlock{pred, b}] {
+					return false
+				}
+				seen[[2]*ssa.BasicBlock{pred, b}] = true
+				env2 := map[ssa.Value]int8{}
+				for k, v := range env {
+					env2[k] = v
+				}
+				pi := -1
+				for i, p := range b.Preds {
+					if p == pred {
+						pi = i
+					}
+				}
+				for _, in := range b.Instrs {
+					phi, ok := in.(*ssa.Phi)
+					if !ok {
+						break
+					}
+					delete(env2, phi)
+					if pi < 0 || pi >= len(phi.Edges) {
+						continue
+					}
+					e := phi.Edges[pi]
+					switch {
+					case an.IsNilConst(e):
+						env2[phi] = 1
+					case failVal != nil && (e == failVal || an.Strip(e) == failVal):
+						env2[phi] = -1
+					default:
+						if v, ok := env[e]; ok {
+							env2[phi] = v
+						}
+					}
+				}
+				for _, in := range b.Instrs {
+					if in == target {
+						return true
+					}
+				}
+				if ifi := an.BlockIf(b); ifi != nil {
+					if failVal != nil {
+						if ex, _, trueSucc, ok := an.ErrIsTest(ifi); ok && ex == failVal {
+							// the ‘does not exist’ side is no failure
+							return reachWith(b.Succs[1-trueSucc], b, env2, failVal, target, seen)
+						}
+					}
+					if x, nilSucc, ok := an.NilTest(ifi); ok {
+						if v, known := env2[x]; known {
+							si := nilSucc
+							if v < 0 {
+								si = 1 - nilSucc
+							}
+							return reachWith(b.Succs[si], b, env2, failVal, target, seen)
+						}
+					}
+				}
+				for _, sc := range b.Succs {
+					if reachWith(sc, b, env2, failVal, target, seen) {
+						return true
+					}
+				}
+				return false
+			}
 			if h != nil {
 				for _, b := range fn.Blocks {
 					ifi := an.BlockIf(b)
@@ -1028,18 +1113,31 @@ func runFSCleanup(c *core.Ctx) {
 						}
 						return false
 					}
-					if nilRet(b.Succs[1-nilSucc], map[*ssa.BasicBlock]bool{}) {
+					if inlineFlag == nil && nilRet(b.Succs[1-nilSucc], map[*ssa.BasicBlock]bool{}) {
+						failSilent = true
+					}
+					if inlineFlag != nil && reachWith(b.Succs[1-nilSucc], b, map[ssa.Value]int8{}, rm, inlineFlag, map[[2]*ssa.BasicBlock]bool{}) {
 						failSilent = true
 					}
 				}
 			}
-			c.Check(!failSilent, "failure-reported:"+name, rm.Pos(), "a removal that failed makes the cleanup return an error: %v — otherwise the caller takes the repository for removed (clears its exists flag) while its blobs, index or layout are still there: reads answer ‘repo does not exist’ and the next manifest push is refused", !failSilent)
+			c.Check(!failSilent, "failure-reported:"+name, rm.Pos(), "a removal that failed makes the cleanup return an error (or, written out in the collector, keeps it from clearing the exists flag): %v — otherwise the caller takes the repository for removed (clears its exists flag) while its blobs, index or layout are still there: reads answer ‘repo does not exist’ and the next manifest push is refused", !failSilent)
 			c.Check(h != nil && tested && stopOK, "stop-on-failure:"+name, rm.Pos(), "a failing removal (other than ‘does not exist’) leaves the cleanup loop: %v — otherwise index.json and oci-layout are removed while content that could not be removed stays behind", h != nil && tested && stopOK)
 			// (4) completed loop => nil, flag cleared on nil
 			okNil := !selfDir
+			if inlineFlag != nil {
+				// the flag is cleared whatever the removal of the directory itself returned
+				for _, g := range an.GuardingEdges(inlineFlag.Block()) {
+					if x, _, ok := an.NilTest(g.If()); ok {
+						if oc, _ := an.CallOf(x); oc != nil && oc != rm && an.IsFunc(oc, "os", "Remove") {
+							okNil = false
+						}
+					}
+				}
+			}
 			an.Instrs(fn, func(in ssa.Instruction) {
 				ret, ok := in.(*ssa.Return)
-				if !ok || len(ret.Results) == 0 {
+				if !ok || len(ret.Results) == 0 || inlineFlag != nil {
 					return
 				}
 				if h != nil && !inLoop(ret.Block()) && !retErrNil(ret) {
@@ -1062,7 +1160,14 @@ func runFSCleanup(c *core.Ctx) {
 			// flag cleared on the nil edge of the cleanup's result, in the caller (parent function)
 			flagOK := false
 			par := fn.Parent()
-			if par == nil {
+			if inlineFlag != nil {
+				par = nil
+				for _, sc := range h.Succs {
+					if !inLoop(sc) && reachWith(sc, h, map[ssa.Value]int8{}, nil, inlineFlag, map[[2]*ssa.BasicBlock]bool{}) {
+						flagOK = true
+					}
+				}
+			} else if par == nil {
 				// the cleanup is a method or function of its own: its (single) static caller plays the parent's part
 				if sites := c.P.Callers(fn); len(sites) == 1 && sites[0].Common().StaticCallee() == fn {
 					par = sites[0].Parent()
@@ -1101,6 +1206,9 @@ func runFSCleanup(c *core.Ctx) {
 			// (5) the emptiness the cleanup is decided on is the index as the collection of this very pass left it:
 			//     every read of the index's entry list that feeds the guard of the cleanup comes after the call that runs
 			//     the collector
+			if inlineFlag != nil {
+				par = fn
+			}
 			if par != nil {
 				var cleanupCall, collectCall *ssa.Call
 				isCollector := func(f *ssa.Function) bool {
@@ -1143,20 +1251,15 @@ func runFSCleanup(c *core.Ctx) {
 						}
 					})
 				}
-				if cleanupCall != nil && collectCall != nil {
-					after := func(in ssa.Instruction) bool {
-						if in.Block() == collectCall.Block() {
-							for _, x := range in.Block().Instrs {
-								if x == ssa.Instruction(collectCall) {
-									return true
-								}
-								if x == in {
-									return false
-								}
-							}
-						}
-						return collectCall.Block().Dominates(in.Block())
-					}
+				guardBlock := h
+				guardPos := rm.Pos()
+				if cleanupCall != nil {
+					guardBlock, guardPos = cleanupCall.Block(), cleanupCall.Pos()
+				}
+				if (cleanupCall != nil || inlineFlag != nil) && collectCall != nil && guardBlock != nil {
+					// a read is stale when the collection can still follow it (a path that skips the collection — the
+					// index could not be loaded — reads what is there)
+					after := func(in ssa.Instruction) bool { return !an.Reaches(in, collectCall) }
 					stale := token.NoPos
 					var walk func(v ssa.Value, d int, seen map[ssa.Value]bool)
 					walk = func(v ssa.Value, d int, seen map[ssa.Value]bool) {
@@ -1195,11 +1298,11 @@ func runFSCleanup(c *core.Ctx) {
 							}
 						}
 					}
-					for _, g := range an.GuardingEdges(cleanupCall.Block()) {
+					for _, g := range an.GuardingEdges(guardBlock) {
 						walk(g.If().Cond, 0, map[ssa.Value]bool{})
 					}
 					c.SetTags("fresh")
-					c.Check(stale == token.NoPos, "decided-after-collection:"+name, cleanupCall.Pos(), "the emptiness test that lets %s remove the repository reads the index after the collection of this pass (a read at %s precedes it): %v — otherwise a repository the pass itself emptied stays until the next pass, and a stale ‘empty’ is acted on after the index was reloaded", c.P.FuncName(par), c.P.Pos(stale), stale == token.NoPos)
+					c.Check(stale == token.NoPos, "decided-after-collection:"+name, guardPos, "the emptiness test that lets %s remove the repository reads the index after the collection of this pass (a read at %s precedes it): %v — otherwise a repository the pass itself emptied stays until the next pass, and a stale ‘empty’ is acted on after the index was reloaded", c.P.FuncName(par), c.P.Pos(stale), stale == token.NoPos)
 					c.SetTags()
 				}
 			}
